@@ -8,7 +8,7 @@
    system with the modes the property allows. *)
 From Coq Require Import Permutation.
 From Oras Require Import Base.Prelude Generated.GC12 Model.TarRoundTrip Model.FileAnnotations
-  Proofs.TarRoundTrip Proofs.TarWalkOrder Proofs.TarListingOrder Proofs.TarModeSweep Proofs.TarRootMode Proofs.TarUnprivileged Proofs.TarSourceFacts.
+  Proofs.TarRoundTrip Proofs.TarWalkOrder Proofs.TarListingOrder Proofs.TarModeSweep Proofs.TarRootMode Proofs.TarUnprivileged Proofs.TarSourceFacts Proofs.TarSetgid.
 
 (* Round trip at full strength: every path of the restored directory -- the directory itself
    included -- is the path of the source tree: same kind, bytes, link target, and mode (minus
@@ -339,6 +339,27 @@ Theorem C12_source_literals :
   N.land c12_dir_owner_bits owner_wx = owner_wx /\ c12_dir_owner_bits <= 511 /\ c12_ensure_dir_perm = 511.
 Proof. exact source_literals. Qed.
 Print Assumptions C12_source_literals.
+
+(* Unpacking into a set-group-ID working directory (a shared project directory): mkdir(2) makes
+   every new directory set-group-ID.  For EVERY archive the extraction is the ordinary run with
+   the bit added to every directory (simulation [Fsg]); for the archives Add writes, the round
+   trip holds with the inherited bit on every directory without PreservePermissions and with the
+   recorded modes exactly with it. *)
+Theorem C12_extract_list_setgid :
+  forall pre umask preserve es,
+    extract_list pre umask preserve (fs_init_sg umask sgid) es
+    = map_res (extract_list pre umask preserve (fs_init umask) es).
+Proof. exact extract_list_setgid. Qed.
+Print Assumptions C12_extract_list_setgid.
+
+Theorem C12_roundtrip_setgid :
+  forall pre umask preserve repro T,
+    (preserve = false -> umask <= 511) ->
+    is_dir T = true -> wf_treeb T = true -> modes_okb T = true -> benign_tree pre T = true ->
+    exists f', extract_sg sgid pre umask preserve (tar_entries pre repro T) = Ok f' /\
+      forall p, fs_lookup f' p = expected_sg sgid umask preserve T p.
+Proof. exact roundtrip_setgid. Qed.
+Print Assumptions C12_roundtrip_setgid.
 
 (* restoreDirModes without PreservePermissions: the special bits of the result are those the
    directory already had (e.g. the set-group-ID bit inherited from a setgid working directory)
